@@ -383,17 +383,36 @@ def import_order_probe(pid):
     orders = ["", "laue", "tools", "parameters,detector,symmetry,structure,laue,tools", "warm"]
     script = os.path.join(VERIF, "harness", "isolated.py")
 
-    def one(order):
+    # environment variables the package's source mentions by name (os.environ[...], os.environ.get(...), os.getenv(...)): each is set to
+    # "0", "1" and "" in turn for one more run of the probe - the documented behaviour has no environment-dependent part
+    import glob as _glob
+    import re as _re
+    envnames = set()
+    for f_ in _glob.glob(os.path.join(REPO, "xfab", "*.py")):
+        try:
+            txt_ = open(f_).read()
+        except Exception:
+            continue
+        envnames |= set(_re.findall(r"""(?:environ(?:\.get)?\s*[\(\[]|getenv\s*\()\s*['"]([A-Za-z_][A-Za-z_0-9]*)['"]""", txt_))
+    envruns = [("env %s=%s" % (nm_, val_), {nm_: val_}) for nm_ in sorted(envnames) for val_ in ("0", "1", "")]
+
+    def one(order, extra_env=None):
         e = dict(os.environ, PYTHONHASHSEED="0", PYTHONDONTWRITEBYTECODE="1")
         e.pop("PYTHONPATH", None)
+        if extra_env:
+            e.update(extra_env)
+            order_label, order = order, ""
+        else:
+            order_label = order
         q = subprocess.run([sys.executable, script, REPO, order, pid], stdout=subprocess.PIPE, stderr=subprocess.PIPE, env=e, timeout=600)
         txt = q.stdout.decode("utf-8", "replace")
         line = [l for l in txt.splitlines() if l.startswith("@@")]
         if q.returncode != 0 or not line:
-            return order, None, q.stderr.decode("utf-8", "replace")[-600:]
-        return order, _json.loads(line[-1][2:]), ""
+            return order_label, None, q.stderr.decode("utf-8", "replace")[-600:]
+        return order_label, _json.loads(line[-1][2:]), ""
     with ThreadPoolExecutor(max_workers=len(orders)) as ex:
         res = list(ex.map(one, orders))
+        res += list(ex.map(lambda le: one(le[0], le[1]), envruns))
     out = []
     ref_order, ref, err = res[0]
     for order, val, err in res:
